@@ -1,4 +1,475 @@
 //! Request generators for the correspondence suites.
-pub fn main(_args: &[String]) {
-    eprintln!("gen: not built yet");
+//!   harness gen <tier> <seed> <signatures.json> [id-prefix ...]   → request lines on stdout, statistics (JSON) on stderr
+use crate::proto::*;
+use crate::rng::Sm;
+use std::collections::BTreeMap;
+
+pub const SPECIAL_F: [f64; 13] = [
+    f64::NAN,
+    f64::NEG_INFINITY,
+    -1.0,
+    -0.0,
+    0.0,
+    5e-324,
+    f64::MIN_POSITIVE,
+    0.5,
+    1.0,
+    1.0000000000000002,
+    2.0,
+    f64::MAX,
+    f64::INFINITY,
+];
+
+pub fn next_up(x: f64) -> f64 {
+    if x.is_nan() || x == f64::INFINITY {
+        return x;
+    }
+    if x == 0.0 {
+        return 5e-324;
+    }
+    let b = x.to_bits();
+    f64::from_bits(if x > 0.0 { b + 1 } else { b - 1 })
+}
+pub fn next_down(x: f64) -> f64 {
+    -next_up(-x)
+}
+
+#[derive(Clone, Copy, PartialEq, Debug)]
+enum Kind {
+    Prob,
+    Shape,
+    Scale,
+    Loc,
+    Any,
+}
+
+fn kind_of(name: &str) -> Kind {
+    let n = name;
+    if n == "p" {
+        Kind::Prob
+    } else if n.starts_with("shape") || n.starts_with("freedom") || n == "r" || n == "lambda" || n == "a" || n == "b" {
+        Kind::Shape
+    } else if n == "rate" || n == "scale" || n == "std_dev" || n == "c" {
+        Kind::Scale
+    } else if n == "location" || n == "mean" || n == "mu" || n == "v" {
+        Kind::Loc
+    } else {
+        Kind::Any
+    }
+}
+
+fn gen_f(r: &mut Sm, k: Kind, extended: bool) -> f64 {
+    match k {
+        Kind::Prob => match r.below(10) {
+            0 => 0.0,
+            1 => 1.0,
+            2 => 0.5,
+            3 => 1e-3,
+            4 => 1.0 - 1e-3,
+            _ => r.range(1e-3, 1.0 - 1e-3),
+        },
+        Kind::Shape => match r.below(12) {
+            0 => 0.5,
+            1 => 1.0,
+            2 => 2.0,
+            3 => 80.0,
+            4 => 160.0,
+            5 => 200.0,
+            6 => r.below(200) as f64 + 1.0,
+            _ => {
+                if extended {
+                    r.log_range(0.05, 1e4)
+                } else {
+                    r.log_range(0.5, 200.0)
+                }
+            }
+        },
+        Kind::Scale => match r.below(8) {
+            0 => 1.0,
+            1 => 1e-2,
+            2 => 1e2,
+            _ => {
+                if extended {
+                    r.log_range(1e-4, 1e4)
+                } else {
+                    r.log_range(1e-2, 1e2)
+                }
+            }
+        },
+        Kind::Loc => match r.below(8) {
+            0 => 0.0,
+            1 => -100.0,
+            2 => 100.0,
+            3 => 1.0,
+            _ => r.range(-100.0, 100.0),
+        },
+        Kind::Any => {
+            let s = if r.below(2) == 0 { 1.0 } else { -1.0 };
+            match r.below(8) {
+                0 => 0.0,
+                1 => 1.0,
+                2 => -1.0,
+                _ => s * r.log_range(1e-3, 1e3),
+            }
+        }
+    }
+}
+
+/// core-domain constructor tuples per family
+fn ctor_tuple(r: &mut Sm, fam: &str, types: &[String], names: &[String], extended: bool) -> Vec<Arg> {
+    // lattice tuple now and then
+    if r.below(8) == 0 {
+        return types
+            .iter()
+            .map(|t| {
+                if t == "f" {
+                    Arg::F(*r.pick(&SPECIAL_F))
+                } else if t.starts_with("i:i") {
+                    Arg::I(*r.pick(&[i64::MIN as i128, -1, 0, 1, i64::MAX as i128]))
+                } else if t.starts_with("i:") {
+                    Arg::I(*r.pick(&[0i128, 1, 2, u64::MAX as i128]))
+                } else {
+                    Arg::FL(vec![])
+                }
+            })
+            .collect();
+    }
+    match fam {
+        "Uniform" => {
+            let a = gen_f(r, Kind::Loc, extended);
+            let w = gen_f(r, Kind::Scale, extended);
+            vec![Arg::F(a), Arg::F(a + w)]
+        }
+        "Triangular" => {
+            let a = gen_f(r, Kind::Loc, extended);
+            let w = gen_f(r, Kind::Scale, extended);
+            let b = a + w;
+            let m = match r.below(5) {
+                0 => a,
+                1 => b,
+                _ => a + w * r.unit(),
+            };
+            vec![Arg::F(a), Arg::F(b), Arg::F(m)]
+        }
+        "DiscreteUniform" => {
+            let a = r.below(200) as i128 - 100;
+            let w = r.below(60) as i128;
+            vec![Arg::I(a), Arg::I(a + w)]
+        }
+        "Hypergeometric" => {
+            let n = match r.below(6) {
+                0 => 0,
+                1 => 1,
+                2 => 50,
+                _ => r.below(300),
+            } as i128;
+            let k = r.below(n as u64 + 1) as i128;
+            let d = r.below(n as u64 + 1) as i128;
+            vec![Arg::I(n), Arg::I(k), Arg::I(d)]
+        }
+        "Binomial" => {
+            let n = match r.below(6) {
+                0 => 0,
+                1 => 1,
+                2 => 1000,
+                _ => r.below(200),
+            } as i128;
+            vec![Arg::F(gen_f(r, Kind::Prob, extended)), Arg::I(n)]
+        }
+        "Erlang" => vec![Arg::I(1 + r.below(200) as i128), Arg::F(gen_f(r, Kind::Scale, extended))],
+        "Chi" => vec![Arg::I(1 + r.below(200) as i128)],
+        "Geometric" | "NegativeBinomial" => {
+            // p in (0,1]
+            let mut v = vec![];
+            for (t, n) in types.iter().zip(names.iter()) {
+                if t == "f" {
+                    let k = kind_of(n);
+                    let mut x = gen_f(r, k, extended);
+                    if k == Kind::Prob && x == 0.0 {
+                        x = 0.25;
+                    }
+                    v.push(Arg::F(x));
+                }
+            }
+            v
+        }
+        "StudentsT" => {
+            let dof = match r.below(8) {
+                0 => f64::INFINITY,
+                1 => 1.0,
+                2 => 2.0,
+                3 => 3.0,
+                _ => gen_f(r, Kind::Shape, extended),
+            };
+            vec![Arg::F(gen_f(r, Kind::Loc, extended)), Arg::F(gen_f(r, Kind::Scale, extended)), Arg::F(dof)]
+        }
+        "Poisson" => vec![Arg::F(match r.below(6) {
+            0 => 0.5,
+            1 => 29.5,
+            2 => 30.5,
+            _ => r.log_range(0.5, 200.0),
+        })],
+        _ => types
+            .iter()
+            .zip(names.iter())
+            .map(|(t, n)| {
+                if t == "f" {
+                    Arg::F(gen_f(r, kind_of(n), extended))
+                } else if t.starts_with("i:") {
+                    Arg::I(r.below(50) as i128)
+                } else if t == "F" {
+                    let len = 1 + r.below(6) as usize;
+                    Arg::FL((0..len).map(|_| if r.below(5) == 0 { 0.0 } else { r.log_range(1e-2, 10.0) }).collect())
+                } else {
+                    Arg::I(0)
+                }
+            })
+            .collect(),
+    }
+}
+
+fn reply_f(s: &str) -> Option<f64> {
+    let s = s.strip_prefix("f:")?;
+    u64::from_str_radix(s, 16).ok().map(f64::from_bits)
+}
+fn reply_i(s: &str) -> Option<i128> {
+    s.strip_prefix("i:")?.parse().ok()
+}
+
+const P_GRID: [f64; 15] = [1e-9, 1e-6, 1e-4, 1e-3, 1e-2, 0.1, 0.25, 0.5, 0.75, 0.9, 0.99, 0.999, 1.0 - 1e-4, 1.0 - 1e-6, 1.0 - 1e-9];
+
+/// argument values for a float method parameter of a constructed distribution
+fn x_pool_f(r: &mut Sm, fam: &str, ctor: &[Arg], inv_hangs: &mut bool) -> Vec<f64> {
+    let mut v: Vec<f64> = vec![];
+    for p in P_GRID.iter() {
+        let mut a = ctor.to_vec();
+        a.push(Arg::F(*p));
+        let rep = crate::call_timeout(&format!("{}::inverse_cdf", fam), &a, 2000);
+        if rep == "hang" {
+            *inv_hangs = true;
+            break;
+        }
+        if let Some(x) = reply_f(&rep) {
+            if !x.is_nan() {
+                v.push(x);
+                if r.below(3) == 0 {
+                    v.push(next_up(x));
+                }
+            }
+        }
+    }
+    for m in ["min", "max"] {
+        if let Some(x) = reply_f(&crate::call_timeout(&format!("{}::{}", fam, m), ctor, 2000)) {
+            v.push(x);
+            v.push(next_up(x));
+            v.push(next_down(x));
+        }
+    }
+    if let Some(x) = reply_f(&crate::call_timeout(&format!("{}::median", fam), ctor, 2000)) {
+        v.push(x);
+    }
+    v.extend_from_slice(&[0.0, -0.0, 1.0, -1.0, 0.5, f64::INFINITY, f64::NEG_INFINITY, 1e300, -1e300, 5e-324]);
+    for _ in 0..6 {
+        v.push(gen_f(r, Kind::Any, false));
+    }
+    v
+}
+
+fn x_pool_i(r: &mut Sm, fam: &str, ctor: &[Arg], signed: bool) -> Vec<i128> {
+    let mut v: Vec<i128> = vec![0, 1, 2, 3, 5, 10];
+    for m in ["min", "max"] {
+        if let Some(x) = reply_i(&crate::call_timeout(&format!("{}::{}", fam, m), ctor, 2000)) {
+            for d in [-2i128, -1, 0, 1, 2] {
+                v.push(x.saturating_add(d));
+            }
+        }
+    }
+    for _ in 0..8 {
+        v.push(r.below(300) as i128);
+    }
+    if signed {
+        for _ in 0..4 {
+            v.push(-(r.below(100) as i128));
+        }
+    } else {
+        v.retain(|x| *x >= 0 && *x <= i64::MAX as i128);
+    }
+    v
+}
+
+fn fn_arg(r: &mut Sm, id: &str, name: &str, ty: &str) -> Arg {
+    let last = id.rsplit("::").next().unwrap();
+    let module = id.rsplit("::").nth(1).unwrap_or("");
+    match ty {
+        "f" => {
+            let special = r.below(12) == 0;
+            if special {
+                return Arg::F(*r.pick(&SPECIAL_F));
+            }
+            let x = match (module, last, name) {
+                ("erf", "erf_inv", _) => r.range(-1.0, 1.0),
+                ("erf", "erfc_inv", _) => r.range(0.0, 2.0),
+                ("erf", _, _) => {
+                    let joints = [0.0, 1e-10, 0.5, 0.75, 1.25, 2.25, 3.5, 5.25, 8.0, 11.5, 17.0, 24.0, 38.0, 60.0, 85.0, 110.0, 5.8, 5.93, 28.0];
+                    match r.below(3) {
+                        0 => {
+                            let j = *r.pick(&joints);
+                            let s = if r.below(2) == 0 { 1.0 } else { -1.0 };
+                            s * match r.below(3) {
+                                0 => j,
+                                1 => next_up(j),
+                                _ => next_down(j),
+                            }
+                        }
+                        _ => (if r.below(2) == 0 { 1.0 } else { -1.0 }) * r.log_range(1e-12, 120.0),
+                    }
+                }
+                ("beta", _, "x") => match r.below(8) {
+                    0 => 0.0,
+                    1 => 1.0,
+                    _ => r.unit(),
+                },
+                ("beta", _, _) => r.log_range(1e-3, 2e3),
+                ("gamma", _, "a") => r.log_range(1e-3, 1e4),
+                ("gamma", "gamma" | "ln_gamma", _) => match r.below(4) {
+                    0 => -r.log_range(1e-3, 170.0),
+                    _ => r.log_range(1e-5, 1e5),
+                },
+                ("gamma", "digamma" | "inv_digamma", _) => (if r.below(3) == 0 { -1.0 } else { 1.0 }) * r.log_range(1e-7, 1e4),
+                ("gamma", _, _) => r.log_range(1e-6, 1e5),
+                ("logistic", "logistic", _) => r.range(-800.0, 800.0),
+                ("logistic", _, _) => r.unit(),
+                ("exponential", _, _) => r.log_range(1e-6, 50.0),
+                ("harmonic", _, _) => r.range(0.5, 6.0),
+                ("generate", _, _) => r.range(-5.0, 5.0).round(),
+                _ => gen_f(r, Kind::Any, false),
+            };
+            Arg::F(x)
+        }
+        t if t.starts_with("i:") => {
+            let x = match r.below(10) {
+                0 => 0,
+                1 => 1,
+                2 => 170,
+                3 => 171,
+                4 => r.below(1_000_000),
+                _ => r.below(200),
+            };
+            Arg::I(x as i128)
+        }
+        "F" => {
+            let len = r.below(13) as usize;
+            Arg::FL((0..len).map(|_| gen_f(r, Kind::Any, false)).collect())
+        }
+        t if t.starts_with("I:") => {
+            let len = r.below(5) as usize;
+            Arg::IL((0..len).map(|_| r.below(20) as i128).collect())
+        }
+        t if t.starts_with("e:") => {
+            let n: u64 = t[2..].parse().unwrap_or(1);
+            Arg::I(r.below(n) as i128)
+        }
+        "b" => Arg::B(r.below(2) == 0),
+        "OF" => Arg::FL(if r.below(2) == 0 { vec![] } else { vec![gen_f(r, Kind::Any, false)] }),
+        t if t.starts_with("OI:") => Arg::IL(if r.below(2) == 0 { vec![] } else { vec![r.below(5) as i128] }),
+        _ => Arg::I(0),
+    }
+}
+
+pub fn main(args: &[String]) {
+    std::panic::set_hook(Box::new(|_| {}));
+    let tier = args.get(0).map(|s| s.as_str()).unwrap_or("quick");
+    let seed: u64 = args.get(1).and_then(|s| s.parse().ok()).unwrap_or(1);
+    let sig_path = args.get(2).expect("signatures.json");
+    let prefixes: Vec<String> = args[3.min(args.len())..].to_vec();
+    let sigs: serde_json::Value = serde_json::from_str(&std::fs::read_to_string(sig_path).unwrap()).unwrap();
+    let thorough = tier == "thorough";
+    let (n_tuples, n_args, n_fn) = if thorough { (60usize, 200usize, 20000usize) } else { (14, 24, 1500) };
+    let mut r = Sm::new(seed);
+    let mut stats: BTreeMap<String, u64> = BTreeMap::new();
+    // group methods by family so that parameter tuples and argument pools are shared
+    let mut fams: BTreeMap<String, Vec<&serde_json::Value>> = BTreeMap::new();
+    let mut frees: Vec<&serde_json::Value> = vec![];
+    for s in sigs.as_array().unwrap() {
+        let id = s["id"].as_str().unwrap();
+        if !prefixes.is_empty() && !prefixes.iter().any(|p| id.starts_with(p.as_str())) {
+            continue;
+        }
+        match s["self"].as_str() {
+            Some(f) if s["ctor"].as_array().map(|a| !a.is_empty()).unwrap_or(false) && !["f64", "i64", "u64", "i32", "u32"].contains(&f) => {
+                fams.entry(f.to_string()).or_default().push(s)
+            }
+            _ => frees.push(s),
+        }
+    }
+    let strs = |v: &serde_json::Value| -> Vec<String> { v.as_array().map(|a| a.iter().map(|x| x.as_str().unwrap_or("").to_string()).collect()).unwrap_or_default() };
+    let out = std::io::stdout();
+    let mut out = std::io::BufWriter::new(out.lock());
+    use std::io::Write;
+    for (fam, methods) in &fams {
+        let ctypes = strs(&methods[0]["ctor"]);
+        let cnames = strs(&methods[0]["ctor_names"]);
+        for ti in 0..n_tuples {
+            let ctor = ctor_tuple(&mut r, fam, &ctypes, &cnames, thorough && ti % 2 == 1);
+            let ok = crate::call_timeout(&format!("{}::new", fam), &ctor, 2000).starts_with("ok");
+            let mut inv_hangs = false;
+            let xf = if ok { x_pool_f(&mut r, fam, &ctor, &mut inv_hangs) } else { vec![0.5, 1.0] };
+            let xi_u = if ok { x_pool_i(&mut r, fam, &ctor, false) } else { vec![0, 1] };
+            let xi_s = if ok { x_pool_i(&mut r, fam, &ctor, true) } else { vec![0, 1] };
+            for m in methods {
+                let id = m["id"].as_str().unwrap();
+                let ptypes = strs(&m["params"]);
+                let method = m["method"].as_str().unwrap_or("");
+                let reps = if ptypes.is_empty() { 1 } else if ok { n_args } else { 2 };
+                // a hang seen while building the argument pool is reported once, not n_args times
+                let reps = if inv_hangs && (method == "inverse_cdf" || method == "median") { 1 } else { reps };
+                for ri in 0..reps {
+                    let mut a = ctor.clone();
+                    for t in &ptypes {
+                        let v = if t == "f" {
+                            if method == "inverse_cdf" {
+                                Arg::F(match r.below(12) {
+                                    0 => 0.0,
+                                    1 => 1.0,
+                                    2 => *r.pick(&P_GRID),
+                                    3 => *r.pick(&P_GRID),
+                                    _ => r.unit(),
+                                })
+                            } else if ri < xf.len() {
+                                Arg::F(xf[ri])
+                            } else {
+                                Arg::F(*r.pick(&xf))
+                            }
+                        } else if t.starts_with("i:i") {
+                            Arg::I(*r.pick(&xi_s))
+                        } else if t.starts_with("i:") {
+                            Arg::I(*r.pick(&xi_u))
+                        } else {
+                            fn_arg(&mut r, id, "", t)
+                        };
+                        a.push(v);
+                    }
+                    writeln!(out, "{} {}", id, a.iter().map(|x| x.render()).collect::<Vec<_>>().join(" ")).unwrap();
+                    *stats.entry(id.to_string()).or_default() += 1;
+                }
+            }
+        }
+    }
+    for s in frees {
+        let id = s["id"].as_str().unwrap();
+        let mut types = strs(&s["ctor"]);
+        types.extend(strs(&s["params"]));
+        let mut names: Vec<String> = strs(&s["ctor"]).iter().map(|_| "self".to_string()).collect();
+        names.extend(strs(&s["param_names"]));
+        let reps = if types.is_empty() { 1 } else { n_fn };
+        for _ in 0..reps {
+            let a: Vec<Arg> = types.iter().zip(names.iter()).map(|(t, n)| fn_arg(&mut r, id, n, t)).collect();
+            writeln!(out, "{} {}", id, a.iter().map(|x| x.render()).collect::<Vec<_>>().join(" ")).unwrap();
+            *stats.entry(id.to_string()).or_default() += 1;
+        }
+    }
+    out.flush().unwrap();
+    let hangs = crate::HANGS.lock().unwrap().clone();
+    eprintln!("{}", serde_json::json!({"counts": stats, "generator_hangs": hangs}));
+    std::process::exit(0);
 }
